@@ -45,6 +45,7 @@ DELIM_FORMATS = [
     RS + "{error.validator}" + GS + "{file_name}" + GS + "{error.message}" + GS + "{error.instance}" + US,
     # formats are used VERBATIM: backslashes, non-ASCII text, conversions, width specs, doubled braces, a
     # trailing backslash - none of it is an escape sequence or a template of anything but str.format
+    RS + "E" + US,                       # no placeholder at all: one constant record per error
     RS + "\u2717 C:\\temp\\new {file_name}" + GS + "{error.message}" + US,
     RS + "{file_name}" + GS + "{error.message!r}\\n\\t" + US + "\\",
     RS + "{error.validator!s:>14}" + GS + "{file_name}" + GS + "{{literal}} %s \\u2717 \\x41" + GS + "{error.message}" + US,
@@ -213,25 +214,40 @@ def generate(rng, tier="quick"):
     error_format = None
     if output == "plain" and rng.random() < 0.65:
         error_format = rng.choice(DELIM_FORMATS)
+        if rng.random() < 0.08:
+            error_format = ""
     return {"property": PROPERTY, "fs": fs, "schema_path": spath, "instances": [] if use_stdin else instances,
             "stdin": use_stdin, "output": output, "error_format": error_format, "validator": validator,
             "base_uri": base_uri, "netdocs": netdocs, "draft": draft,
-            "realfs": realfs,
+            "realfs": realfs, "argv_style": rng.choice([0, 0, 1, 2, 3]),
             "crosscheck": bool(tier == "thorough" and rng.random() < 0.01)}
 
 
 def argv_of(scn):
+    # the same command line in the spellings argparse accepts: short / long options, `--opt=value`,
+    # options before or after the schema
+    style = scn.get("argv_style", 0)
+    names = {"i": ["-i", "--instance", "--instance", "-i"][style], "o": ["--output", "--output", "--output", "-o"][style],
+             "F": ["--error-format", "--error-format", "--error-format", "-F"][style],
+             "V": ["--validator", "--validator", "--validator", "-V"][style]}
+
+    def opt(k, v):
+        if style == 2 and not v.startswith("-"):
+            return [names[k] + "=" + v]
+        return [names[k], v]
     argv = []
     for p in scn["instances"]:
-        argv += ["-i", p]
+        argv += opt("i", p)
     if scn["output"] != "plain":
-        argv += ["--output", scn["output"]]
+        argv += opt("o", scn["output"])
     if scn["error_format"] is not None:
-        argv += ["--error-format", scn["error_format"]]
+        argv += opt("F", scn["error_format"])
     if scn["validator"]:
-        argv += ["--validator", scn["validator"]]
+        argv += opt("V", scn["validator"])
     if scn["base_uri"]:
         argv += ["--base-uri", scn["base_uri"]]
+    if style == 3 and not scn["schema_path"].startswith("-"):
+        return [scn["schema_path"]] + argv
     argv.append(scn["schema_path"])
     return argv
 
@@ -485,6 +501,17 @@ def execute(scn):
                                      "detail": {"missing": [r for r in want if r not in recs][:3],
                                                 "unexpected": [r for r in recs if r not in want][:3],
                                                 "n_got": len(recs), "n_want": len(want)}})
+            elif fmt == "":
+                # an explicitly EMPTY error format (a quiet, status-only run): every error renders as nothing
+                probe("empty_format_runs")
+                if not unloadable and sc[0] == "ok" and stderr != "":
+                    viol.append({"oracle": "stderr-not-through-format", "where": 0, "detail": {"stderr": stderr[:300]}})
+                else:
+                    for p, msgs in expected_msgs.items():
+                        if any(len(m) >= 12 and m in stderr for m in msgs):
+                            viol.append({"oracle": "stderr-not-through-format", "where": 0,
+                                         "detail": {"path": p, "stderr": stderr[:300]}})
+                            break
             else:
                 for p, msgs in expected_msgs.items():
                     for m in msgs:
